@@ -21,8 +21,8 @@ from dataclasses import dataclass, field, replace
 from typing import Any, Dict, List, Optional, Tuple
 
 LAUNCH_KERNEL_NAMES = ["cudaLaunchKernel", "cudaLaunchKernelExC", "cuLaunchKernel", "hipLaunchKernel",
-                       "runFunction - job_prep_and_submit_for_execution"]
-LAUNCH_MEM_NAMES = ["cudaMemcpyAsync", "cudaMemsetAsync"]
+                       "runFunction - job_prep_and_submit_for_execution", "hipExtModuleLaunchKernel"]
+LAUNCH_MEM_NAMES = ["cudaMemcpyAsync", "cudaMemsetAsync", "hipMemcpyAsync", "hipMemsetAsync", "hipMemcpyWithStream"]
 COMPUTE_KERNELS = ["void at::native::vectorized_elementwise_kernel<4, at::native::AddFunctor<float> >(int)",
                    "ampere_sgemm_128x64_nn", "volta_fp16_gemm", "ncclFoo", "xMemcpy", "elementwise",
                    "void cutlass::Kernel<cutlass_80>(Params)", "sm80_xmma_gemm"]
@@ -661,7 +661,9 @@ _reg(Profile(name="comm_overlap", device="free", n_free_kernels=(2, 12), tmax_ch
                            "sm80_xmma_gemm", "ncclKernel_x")))
 _reg(Profile(name="loader_pad", n_steps=(0, 3), n_ranks=(1, 2), n_pad=(125, 150), p_launch=0.5, p_sync=0.3))
 _reg(Profile(name="loader_mix", n_steps=(0, 3), n_ranks=(1, 3), p_nonevents=0.9, p_string_pid_span=0.6, p_missing_kernel=0.2, p_orphan_kernel=0.3,
-             p_sync=0.5, allow_host_stream_arg=True, stream_zero=True))
+             p_sync=0.5, allow_host_stream_arg=True))
+_reg(Profile(name="loader_s0", n_steps=(0, 1), n_ranks=(1, 3), p_nonevents=0.6, p_missing_kernel=0.2, p_orphan_kernel=0.3,
+             p_sync=0.3, allow_host_stream_arg=True, stream_zero=True))
 _reg(Profile(name="free_overlap_s0", device="free", n_free_kernels=(2, 14), tmax_choices=(4, 6, 10, 20, 60), kernel_causal=False,
              p_launch=0.3, n_ranks=(1, 3), p_kernel_zero=0.12, n_streams=(2, 3), allow_host_stream_arg=True, stream_zero=True))
 _reg(Profile(name="steps_mix", n_steps=(0, 5), n_ranks=(1, 3), tmax_choices=(12, 24, 40, 110, 600), p_missing_kernel=0.15, p_orphan_kernel=0.2,
